@@ -14,6 +14,7 @@ structure Obs where
   status : Counts
   recorded : Counts
   markers : Counts
+  markerKeys : Counts := []   -- number of marker KEYS per node (a marker may hold the count 0)
 
 /-- the model of `GetDeployStatus`: deployed + Σ markers -/
 def sumOK (nodes : List String) (o : Obs) : Bool :=
@@ -27,7 +28,9 @@ def duringViolations (nodes : List String) (prior planned : Counts) (o : Obs) : 
 /-- after it has returned: status = recorded and no marker remains -/
 def afterViolations (nodes : List String) (o : Obs) : List String :=
   (nodes.filter fun n => get o.status n != get o.recorded n).map (fun n => "C13:cluster:status-differs-from-recorded-after-return:" ++ n) ++
-  (o.markers.map fun p => "C13:cluster:marker-left-after-return:" ++ p.1)
+  -- "no in-progress marker remains" is about marker KEYS: a marker holding 0 changes no count
+  (((o.markerKeys.filter fun p => p.2 > 0).map (·.1) ++ (o.markers.filter fun p => p.2 > 0).map (·.1)).eraseDups.map
+    fun n => "C13:cluster:marker-left-after-return:" ++ n)
 
 /-- the clauses follow from the sum model as long as the markers never exceed what is still planned -/
 theorem during_ok_of_sum (n : String) (prior planned : Counts) (o : Obs)
